@@ -48,12 +48,12 @@ Theorem conv_output_stage_is_reference :
     exists qt st, tfl_quantize_multiplier (Dy m e) = (qt, st) /\
       finish r acc bias q s =
       clampz (s16 (r0 r cmd0_NPU_SET_ACTIVATION_MIN)) (s16 (r0 r cmd0_NPU_SET_ACTIVATION_MAX))
-             (MultiplyByQuantizedMultiplier (acc + bias) qt st + s16 (r0 r cmd0_NPU_SET_OFM_ZERO_POINT)).
+             (MultiplyByQuantizedMultiplier (acc + bias) qt st + ofm_zp r).
 Proof.
   intros r m e q s acc bias Hm Hr Hq Hnz Hs Hx Hp.
   destruct (requantisation_end_to_end m e q s (acc + bias) Hm Hq Hnz Hs Hx Hp) as [qt [st [Ht He]]].
   exists qt, st. split; [exact Ht|].
-  unfold finish, apply_scale. rewrite Hr. cbn [Z.eqb]. rewrite He. reflexivity.
+  unfold finish, finish_raw, apply_scale. rewrite Hr. cbn [Z.eqb]. rewrite He. reflexivity.
 Qed.
 
 (* Elementwise ADD / SUB on 8-bit operands with one operand scaled by the 32-bit OPA scale (the form Vela emits
